@@ -18,7 +18,7 @@ def problem(rng, kind):
     cfg = dict(kind=kind, dim=dim, P=prand(rng, nv, 2, 3) or {(0,) * nv: 1}, q=prand(rng, nv, 2, 2) or {(0,) * nv: 1},
                theta=dy(rng, 1, 3), a=dy(rng, 1, 3), b=dy(rng, -2, 2),
                batch=[[dy(rng) for _ in range(nv)] for _ in range(rng.randint(1, 3))],
-               w={t: rng.randint(1, 4) / 2 for t in TERMS[kind]}, rev_keys=rng.random() < 0.5, rev_params=rng.random() < 0.3)
+               w={t: rng.randint(1, 4) / 2 for t in TERMS[kind]}, rev_keys=rng.random() < 0.5, rev_params=rng.random() < 0.3, nested=False)   # (a nested single-loss layout cannot carry an observation part: _update_eq_params_dict pairs top-level keys; not generated)
     n = len(cfg["batch"])
     cfg["obs"] = dict(inputs=[[dy(rng) for _ in range(nv)] for _ in range(n)], vals=[[float(rng.randint(-2, 2))] for _ in range(n)])
     cfg["obs_arows"] = [dy(rng, 1, 4) for _ in range(n)]        # used by every second PDE specification (see generate)
@@ -46,12 +46,15 @@ def build(cfg, masks):
     from jinns.data._Batchs import ODEBatch, PDEStatioBatch, PDENonStatioBatch
     kind = cfg["kind"]
     eq_type = {"ode": "ODE", "statio": "statio_PDE", "nonstatio": "nonstatio_PDE"}[kind]
-    u = mk([cfg["P"]], eq_type, output_transform=lambda i, o, p: o + p.eq_params["b"])
+    nested = bool(cfg.get("nested"))        # equation parameters may be grouped in nested dictionaries: b lives in eq_params["g"]["b"]
+    getb = (lambda p: p.eq_params["g"]["b"]) if nested else (lambda p: p.eq_params["b"])
+    u = mk([cfg["P"]], eq_type, output_transform=lambda i, o, p: o + getb(p))
     nn = eqx.tree_at(lambda m: m.scale, u.init_params(), jnp.array(cfg["theta"]))
     od = (lambda d: dict(reversed(list(d.items())))) if cfg.get("rev_keys") else (lambda d: d)      # dictionaries written in either key order
-    P = Params(nn_params=nn, eq_params=(od if cfg.get("rev_params") else (lambda d: d))({"a": jnp.array(cfg["a"]), "b": jnp.array(cfg["b"])}))
+    shape_eq = (lambda a, b: {"a": a, "g": {"b": b}}) if nested else (lambda a, b: {"a": a, "b": b})
+    P = Params(nn_params=nn, eq_params=(od if cfg.get("rev_params") else (lambda d: d))(shape_eq(jnp.array(cfg["a"]), jnp.array(cfg["b"]))))
     q = cfg["q"]
-    Mtree = lambda t: Params(nn_params=bool(masks[t][0]), eq_params=od({"a": bool(masks[t][1]), "b": bool(masks[t][2])}))
+    Mtree = lambda t: Params(nn_params=bool(masks[t][0]), eq_params=od(shape_eq(bool(masks[t][1]), bool(masks[t][2]))))
     use_str = all(as_string(masks[t]) for t in masks)           # every mask has a string form: go through from_str (strings and trees may be mixed)
     M = (lambda t: as_string(masks[t])) if use_str else Mtree
     # boolean-tree form with a partial specification: a term whose mask is the documented default (network parameters only)
@@ -106,7 +109,8 @@ def evaluate(cfg, masks):
     jax, jnp, np, eqx, jinns = jx()
     P, L, batch = build(cfg, masks)
     (v, terms), g = jax.value_and_grad(lambda p: L(p, batch), has_aux=True)(P)
-    return float(v), [float(g.nn_params.scale), float(g.eq_params["a"]), float(g.eq_params["b"])], {k: float(x) for k, x in terms.items()}
+    gb = g.eq_params["g"]["b"] if cfg.get("nested") else g.eq_params["b"]
+    return float(v), [float(g.nn_params.scale), float(g.eq_params["a"]), float(gb)], {k: float(x) for k, x in terms.items()}
 
 
 def descs(cfg, term):
@@ -245,6 +249,7 @@ def sys_problem(rng, kind):
                q=prand(rng, nv, 2, 2) or {(0,) * nv: 1}, batch=[[dy(rng) for _ in range(nv)] for _ in range(n)],
                obs={k: dict(inputs=[[dy(rng) for _ in range(nv)] for _ in range(n)], vals=[float(rng.randint(-2, 2)) for _ in range(n)]) for k in "uv"},
                w=dict(dyn_loss=rng.randint(1, 4) / 2, initial_condition={k: rng.randint(1, 4) / 2 for k in "uv"}, observations={k: rng.randint(1, 4) / 2 for k in "uv"}))
+    cfg["per_unknown"] = rng.random() < 0.5
     if kind == "sys_ode":
         cfg["ic"] = {k: [dy(rng), float(rng.randint(-2, 2))] for k in "uv"}
     else:
@@ -261,7 +266,12 @@ def sys_build(cfg, masks):
     for k in "uv":
         us[k] = mk([cfg["P"][k]], "ODE" if ode else "nonstatio_PDE", output_transform=lambda i, o, p: o + p.eq_params["b"])
         nn[k] = eqx.tree_at(lambda m: m.scale, us[k].init_params(), jnp.array(cfg["theta"][k]))
-    PD = ParamsDict(nn_params=nn, eq_params={"a": jnp.array(cfg["a"]), "b": jnp.array(cfg["b"])})
+    # the equation parameters may be shared (one flat dictionary) or given per unknown (eq_params[k] = {...}, the layout
+    # extract_params looks for first); in the second layout both unknowns hold the same values, the equation reads u's a
+    per_unknown = bool(cfg.get("per_unknown"))
+    flat = {"a": jnp.array(cfg["a"]), "b": jnp.array(cfg["b"])}
+    PD = ParamsDict(nn_params=nn, eq_params=({k: dict(flat) for k in "uv"} if per_unknown else flat))
+    geta = (lambda pd: pd.eq_params["u"]["a"]) if per_unknown else (lambda pd: pd.eq_params["a"])
     q = cfg["q"]
     M = lambda bits: Params(nn_params=bool(bits[0]), eq_params={"a": bool(bits[1]), "b": bool(bits[2])})
     dflt = [True, False, False]
@@ -270,7 +280,7 @@ def sys_build(cfg, masks):
     if ode:
         class Eq(jinns.loss.ODE):
             def equation(self, t, u_dict, params_dict):
-                return (params_dict.eq_params["a"] * u_dict["u"](t, params_dict.extract_params("u")) + u_dict["v"](t, params_dict.extract_params("v"))
+                return (geta(params_dict) * u_dict["u"](t, params_dict.extract_params("u")) + u_dict["v"](t, params_dict.extract_params("v"))
                         + poly_jax(q, jnp.atleast_1d(t)))
         dk = {k: jinns.parameters.DerivativeKeysODE(dyn_loss=M(dflt), initial_condition=M(masks[k]["initial_condition"]), observations=M(masks[k]["observations"])) for k in "uv"}
         lw = jinns.loss.LossWeightsODEDict(dyn_loss=w["dyn_loss"], initial_condition=dict(w["initial_condition"]), observations=dict(w["observations"]))
@@ -280,7 +290,7 @@ def sys_build(cfg, masks):
 
     class Eq(jinns.loss.PDENonStatio):
         def equation(self, t, x, u_dict, params_dict):
-            return (params_dict.eq_params["a"] * u_dict["u"](t, x, params_dict.extract_params("u")) + u_dict["v"](t, x, params_dict.extract_params("v"))
+            return (geta(params_dict) * u_dict["u"](t, x, params_dict.extract_params("u")) + u_dict["v"](t, x, params_dict.extract_params("v"))
                     + poly_jax(q, jnp.concatenate([t, x])))
     dk = {k: jinns.parameters.DerivativeKeysPDENonStatio(dyn_loss=M(dflt), boundary_loss=M(dflt), norm_loss=M(dflt),
                                                          initial_condition=M(masks[k]["initial_condition"]), observations=M(masks[k]["observations"])) for k in "uv"}
@@ -294,7 +304,11 @@ def sys_evaluate(cfg, masks):
     jax, jnp, np, eqx, jinns = jx()
     PD, L, batch = sys_build(cfg, masks)
     (v, terms), g = jax.value_and_grad(lambda p: L.evaluate(p, batch), has_aux=True)(PD)
-    return float(v), [float(g.nn_params["u"].scale), float(g.nn_params["v"].scale), float(g.eq_params["a"]), float(g.eq_params["b"])]
+    if cfg.get("per_unknown"):      # both unknowns hold the same value of a and of b: the derivative with respect to that value is the sum
+        ga, gb = (float(g.eq_params["u"][k]) + float(g.eq_params["v"][k]) for k in "ab")
+    else:
+        ga, gb = float(g.eq_params["a"]), float(g.eq_params["b"])
+    return float(v), [float(g.nn_params["u"].scale), float(g.nn_params["v"].scale), ga, gb]
 
 
 def sys_case_term(cid, cfg, masks, val, grad):
@@ -433,7 +447,7 @@ def generate(tier, seed, casedir, variant):
     # ids of the system files are local to them: the driver looks them up as "s<id>" when the file name says so
     meta.update(smeta); cases = cases + scases
     return dict(meta=meta, oracle_violations=viol, evaluations=len(cases), distinct_nontrivial=len(nontrivial), samples=samples, distribution=dist,
-                rule="assignments of {selected, not selected} to every (loss term, parameter group) pair, groups = network parameters, eq_params[a], eq_params[b] (all 512 for the ODE loss in the thorough tier, random ones otherwise, the default and five string-form specifications (built with from_str) always included), on random polynomial problems (half of the ODE ones with a parameter batch on the equation's parameter); jax.grad of the total and the value compared with the symbolic masked total; non-trivial = non-zero gradient; distinct by (loss kind, assignment); plus string / default / rejection checks; plus two-unknown system losses (ODE and non-stationary PDE) whose per-unknown derivative keys differ, groups = nn_params[u], nn_params[v], eq_params[a], eq_params[b]",
+                rule="assignments of {selected, not selected} to every (loss term, parameter group) pair, groups = network parameters, eq_params[a], eq_params[b] (all 512 for the ODE loss in the thorough tier, random ones otherwise, the default and five string-form specifications (built with from_str) always included), on random polynomial problems (half of the ODE ones with a parameter batch on the equation's parameter); jax.grad of the total and the value compared with the symbolic masked total; non-trivial = non-zero gradient; distinct by (loss kind, assignment); plus string / default / rejection checks; plus two-unknown system losses (ODE and non-stationary PDE) whose per-unknown derivative keys differ, groups = nn_params[u], nn_params[v], eq_params[a], eq_params[b], the equation parameters shared or given per unknown",
                 oracle_checks=len(cases) // 7 + 1, exhaustive=False)
 
 
